@@ -1028,6 +1028,19 @@ def repeated_views(ctx):
             real_names = [m.register_name for m in c.measurements]
             outs = [H["canon"](op, H["call_op"](op, res, handles), regs, real_names, nshots) for op in ops]
             err = None
+            # probabilities of a result that has no state: frequencies / nshots, marginal in the given order
+            flat = [q for r_ in regs for q in r_]
+            pq = rng.sample(flat, rng.randint(1, len(flat)))
+            exp_p = np.zeros(2 ** len(pq))
+            for sdec in T:
+                bits = [(sdec >> (len(flat) - 1 - j)) & 1 for j in range(len(flat))]
+                exp_p[int("".join(str(bits[flat.index(q)]) for q in pq), 2)] += 1 / nshots
+            got_p = np.asarray(res.probabilities(pq), dtype=float)
+            got_p2 = np.asarray(res.probabilities(pq), dtype=float)
+            if got_p.shape != exp_p.shape or not np.allclose(got_p, exp_p, atol=1e-9) or not np.allclose(got_p2, exp_p, atol=1e-9):
+                err = f"probabilities({pq}) = {got_p.tolist()} but the reported samples give {exp_p.tolist()}"
+            elif [H["canon"](op, H["call_op"](op, res, handles), regs, real_names, nshots) for op in ops] != outs:
+                err = "answers changed after probabilities() was called"
         except Exception as e:  # noqa
             T, outs, real_names, err = [], [], [], f"{type(e).__name__}: {e}"
         runs.append((n, cq, regs, ops, nshots, T, outs, real_names, names, err, be.calls))
@@ -1040,7 +1053,9 @@ def repeated_views(ctx):
         ctx.case(("repeated", n, tuple(map(tuple, regs)), tuple(map(str, ops))))
         ctx.stat("repeated_views")
         problem = None
-        if err:
+        if err and err.startswith("probabilities("):
+            problem = (0, ("probs", []), "frequencies / nshots marginalised in the given qubit order", err)
+        elif err:
             problem = (0, ops[0], "no exception", err)
         elif real_names != names:
             problem = (0, ops[0], names, real_names)
@@ -1054,6 +1069,8 @@ def repeated_views(ctx):
             i, op, exp, got = problem
             regflag = "registers" if op[0] in ("samples", "freqs") and op[2] else "global" if op[0] in ("samples", "freqs") else "gate"
             key = f"views:{op_name(op).split('(')[0]}:{regflag}:repeated-execution"
+            if op[0] == "probs":
+                key = "views:probabilities:from-samples:repeated-execution"
             build = "".join(f"c.add(gates.H({q}))\n" for q in range(n)) + f"c.add(gates.M({cq}, collapse=True))\nc.add(gates.H({cq}))\n" + \
                 f"handles = [c.add(gates.M(*reg)) for reg in {regs!r}]\n"
             py = (replay_header() + f"c = Circuit({n})\n{build}be = OracleBackend(Tape({calls!r}))\nres = be.execute_circuit(c, nshots={nshots})\n"
